@@ -3,9 +3,13 @@ line-ending-only difference as such, and never writes.
 
 Histories over an output directory: generate with the real CLI, then apply a
 seeded sequence of operations {nothing, delete a file, alter a byte, append a
-byte, LF->CRLF (all / some lines), add an unrelated file, delete a sub-directory,
-restore one file, restore everything}; after every operation run `--check` under
-`strace -f -e trace=%file` and compare with a model of the directory."""
+byte, LF->CRLF (all / some lines; of a file with / without TAB characters), add an
+unrelated file, delete a sub-directory, restore one file, restore everything};
+after every operation run `--check` under `strace -f -e trace=%file` and compare
+with a model of the directory.  Two directed worlds (doc comments containing TABs,
+which generators copy verbatim; a future/stream world, whose Go templates are
+TAB-indented) run for every backend at every seed with a fixed history that
+CRLF-converts a TAB-containing file and a TAB-free one."""
 import concurrent.futures
 import hashlib
 import json
@@ -191,8 +195,12 @@ def _history(case, work, rng, nops):
         with open(p, "wb") as f:
             f.write(data)
 
-    ops = ["nothing", "delete", "alter", "append", "crlf", "crlf-some", "extra-file", "restore-one", "restore-all", "truncate", "delete-dir"]
-    seq = ["nothing"] + [ops[rng.below(len(ops))] for _ in range(nops - 1)]
+    ops = ["nothing", "delete", "alter", "append", "crlf", "crlf-some", "crlf-tab", "extra-file", "restore-one", "restore-all", "truncate",
+           "delete-dir"]
+    if case.get("directed_seq"):
+        seq = list(case["directed_seq"])
+    else:
+        seq = ["nothing"] + [ops[rng.below(len(ops))] for _ in range(nops - 1)]
     # every history ends restored: the final check must succeed again
     seq.append("restore-all")
     for step, op in enumerate(seq):
@@ -218,12 +226,19 @@ def _history(case, work, rng, nops):
                     b = b[: rng.below(len(b))]
                 write(n, bytes(b))
                 model.cur[n] = bytes(b)
-        elif op in ("crlf", "crlf-some"):
+        elif op in ("crlf", "crlf-some", "crlf-tab", "crlf-some-tab", "crlf-notab"):
             cands = [n for n in text_names if n in model.cur and model.cur[n] == model.want[n]]
+            if op in ("crlf-tab", "crlf-some-tab"):
+                # a text file containing a TAB (doc comments are copied verbatim; Go templates are TAB-indented)
+                cands = [n for n in cands if b"\t" in model.want[n]]
+            elif op == "crlf-notab":
+                cands = [n for n in cands if b"\t" not in model.want[n]]
             if cands:
                 n = cands[rng.below(len(cands))]
                 src = model.cur[n]
-                if op == "crlf":
+                k = "crlf_files_with_tab" if b"\t" in src else "crlf_files_without_tab"
+                res[k] = res.get(k, 0) + 1
+                if op in ("crlf", "crlf-tab", "crlf-notab"):
                     b = src.replace(b"\n", b"\r\n")
                 else:
                     parts = src.split(b"\n")
@@ -397,6 +412,28 @@ def run(tier, seed, replay):
                 c = pool.pop(rng.below(len(pool)))
                 inputs.append({"src": c["path"], "world": c["world"], "input": "corpus:" + c["name"]})
                 n_corpus -= 1
+            # directed inputs, every seed, every backend: doc comments with TABs (copied verbatim into the output) and a
+            # future/stream world (the Go templates for those are TAB-indented); their histories always CRLF a file that
+            # contains a TAB and one that does not
+            ddir = os.path.join(scratch, "directed")
+            os.makedirs(ddir)
+            directed = {
+                "tab-docs": "package d:tabdocs;\n\n/// interface doc with a\ttab in it\n/// second\tline\ninterface i {\n  /// record doc\twith tab\n  record r {\n"
+                            "    /// field\tdoc\n    a: u32,\n    b: string,\n  }\n  /// variant\tdoc\n  variant v {\n    /// case\tdoc\n    x(u32),\n    y,\n  }\n"
+                            "  /// func\tdoc with tab\n  f: func(x: r, y: v) -> r;\n}\n\n/// world\tdoc\nworld w {\n  import i;\n  export i;\n"
+                            "  /// world func\tdoc\n  export run: func(a: u32) -> string;\n}\n",
+                "streams": "package d:streams;\n\ninterface i {\n  f: func(a: stream<u8>) -> future<string>;\n  g: async func(x: u32) -> u32;\n"
+                           "  h: func(a: future<u32>, b: stream<string>) -> stream<u32>;\n}\n\nworld w {\n  import i;\n  export i;\n}\n",
+            }
+            dseq = ["nothing", "crlf-tab", "restore-all", "crlf-some-tab", "restore-all", "crlf-notab", "restore-all", "alter"]
+            for name, text in sorted(directed.items()):
+                path = os.path.join(ddir, name + ".wit")
+                with open(path, "w") as f:
+                    f.write(text)
+                for b in sorted(variants):
+                    v = variants[b][0]
+                    cases.append({"backend": b, "variant": v["name"], "flags": v["flags"], "src": path, "world": None,
+                                  "input": "directed:" + name, "is_wit": True, "hseed": rng.next(), "directed_seq": dseq})
             for inp in inputs:
                 backs = sorted(variants)
                 if not thorough:
@@ -440,6 +477,9 @@ def run(tier, seed, replay):
                     if not res["violations"]:
                         continue
                 stats["histories"] += 1
+                for k in ("crlf_files_with_tab", "crlf_files_without_tab"):
+                    if res.get(k):
+                        stats[k] = stats.get(k, 0) + res[k]
                 if res.get("unstable_found_late"):
                     stats["unstable_files_found_late"] = stats.get("unstable_files_found_late", 0) + res["unstable_found_late"]
                 if res.get("unstable_files"):
